@@ -126,8 +126,24 @@ Example c04_nonvacuous :
   end.
 Proof. vm_compute. reflexivity. Qed.
 
+(* ---- instance level (Model/Instance.v: routing + grouping + one group machine per aggregation group on one clock):
+   every notification any group of the instance ever sends carries one of the property's reasons, lists no resolved
+   alert when the integration has send_resolved off, is the output of an attempt event of THAT group, and lists an
+   alert as resolved only if it had ended when the batch was frozen. Lifted through the projection theorem
+   ([c01_instance_projection]) from [c04_every_notification_justified]. ---- *)
+From AM Require Import Model.Matchers Model.Route Model.Grouping Model.Instance Proofs.InstanceProofs.
+
+Theorem c04_instance_every_notification_justified cfg t0 h s outs k i r sent oc :
+  irun cfg (iinit t0) h = Some (s, outs) -> In (k, ONotify i r sent oc) outs ->
+  r <> RNo /\
+  (forall ic, g_ints (gcfg_of cfg (fst k)) !! i = Some ic -> i_send_resolved ic = false -> forall f, In f sent -> f_res f = false) /\
+  exists t, In (t, IGroup k (EAttempt i oc)) h /\
+    forall f, In f sent -> f_res f = true -> exists tf a, tf <= t /\ f = freeze tf a /\ a_ends a <> 0 /\ a_ends a <= tf.
+Proof. exact (every_instance_notification_justified cfg t0 h s outs k i r sent oc). Qed.
+
 Print Assumptions c04_decision_exact.
 Print Assumptions c04_every_notification_justified.
 Print Assumptions c04_log_entry_is_the_delivery_history.
 Print Assumptions c04_gc_and_delivery_log_commute.
 Print Assumptions c04_delivery_entry_survives_concurrent_gc.
+Print Assumptions c04_instance_every_notification_justified.
